@@ -403,9 +403,11 @@ func (p *DefParser) parseScheduleDagIns(dagIns *entity.DagInstance) error {
 
 func (p *DefParser) parseCmd(dagIns *entity.DagInstance) (err error) {
 	if dagIns.Cmd != nil {
+		// whether tasks were re-armed, so the dag instance has to be initialised again
+		needInitial := false
 		switch dagIns.Cmd.Name {
 		case entity.CommandNameRetry:
-			err = p.loopTaskThenInitialDagIns(
+			needInitial, err = p.loopTask(
 				dagIns,
 				[]entity.TaskInstanceStatus{entity.TaskInstanceStatusFailed, entity.TaskInstanceStatusCanceled},
 				func(t *entity.TaskInstance) bool {
@@ -426,7 +428,7 @@ func (p *DefParser) parseCmd(dagIns *entity.DagInstance) (err error) {
 				return err
 			}
 		case entity.CommandNameContinue:
-			err = p.loopTaskThenInitialDagIns(
+			needInitial, err = p.loopTask(
 				dagIns,
 				[]entity.TaskInstanceStatus{entity.TaskInstanceStatusBlocked},
 				func(t *entity.TaskInstance) bool {
@@ -454,21 +456,21 @@ func (p *DefParser) parseCmd(dagIns *entity.DagInstance) (err error) {
 		}, "Cmd", "Reason"); err != nil {
 			return err
 		}
+
+		// the re-armed tasks are pushed only after the command has been cleared and the
+		// instance marked running in the store: the verdict written when those tasks
+		// complete must not be overwritten by the patch above
+		if needInitial {
+			p.InitialDagIns(dagIns)
+		}
 	}
 	return nil
 }
 
-func (p *DefParser) loopTaskThenInitialDagIns(
+func (p *DefParser) loopTask(
 	dagIns *entity.DagInstance,
 	status []entity.TaskInstanceStatus,
-	loopFunc func(*entity.TaskInstance) bool) (err error) {
-
-	hasAnyTaskChanged := false
-	defer func() {
-		if err == nil && hasAnyTaskChanged {
-			p.InitialDagIns(dagIns)
-		}
-	}()
+	loopFunc func(*entity.TaskInstance) bool) (hasAnyTaskChanged bool, err error) {
 
 	taskIns, err := GetStore().ListTaskInstance(&ListTaskInstanceInput{
 		DagInsID: dagIns.ID,
@@ -476,7 +478,7 @@ func (p *DefParser) loopTaskThenInitialDagIns(
 		Status:   status,
 	})
 	if err != nil {
-		return err
+		return false, err
 	}
 
 	for _, t := range taskIns {
@@ -485,12 +487,12 @@ func (p *DefParser) loopTaskThenInitialDagIns(
 		}
 
 		if err := GetStore().UpdateTaskIns(t); err != nil {
-			return err
+			return hasAnyTaskChanged, err
 		}
 		hasAnyTaskChanged = true
 	}
 	dagIns.Run()
-	return
+	return hasAnyTaskChanged, nil
 }
 
 // Close
